@@ -7,7 +7,7 @@ import Mathlib.MeasureTheory.Function.JacobianOneDim
 import Mathlib.Analysis.SpecialFunctions.Gaussian.GaussianIntegral
 import Mathlib.MeasureTheory.Integral.IntegralEqImproper
 
-open Real MeasureTheory Set
+open Real MeasureTheory Set Filter Topology
 
 namespace MaternInt
 
@@ -233,5 +233,131 @@ theorem integral_E {b : ℝ} (hb : 0 ≤ b) : ∫ x in Ioi 0, E b x = sqrt π / 
       setIntegral_congr_fun measurableSet_Ioi fun x hx => E_eq_F hx
     rw [e, integral_const_mul, integral_F hb]
     ring
+
+/-! ### Integration by parts: the second and fourth moments -/
+
+theorem hasDerivAt_E (b : ℝ) {x : ℝ} (hx : x ≠ 0) :
+    HasDerivAt (fun x => E b x) (E b x * (-(2 * x) + 2 * b ^ 2 / x ^ 3)) x := by
+  have h0 : HasDerivAt (fun x : ℝ => x ^ 2) (2 * x) x := by
+    simpa using hasDerivAt_pow 2 x
+  have h1 : HasDerivAt (fun x : ℝ => -x ^ 2) (-(2 * x)) x := h0.neg
+  have h2 : HasDerivAt (fun x : ℝ => b ^ 2 / x ^ 2) ((0 * x ^ 2 - b ^ 2 * (2 * x)) / (x ^ 2) ^ 2) x :=
+    (hasDerivAt_const x (b ^ 2)).fun_div h0 (pow_ne_zero 2 hx)
+  have h3 : HasDerivAt (fun x : ℝ => exp (-x ^ 2 - b ^ 2 / x ^ 2))
+      (exp (-x ^ 2 - b ^ 2 / x ^ 2) * (-(2 * x) - (0 * x ^ 2 - b ^ 2 * (2 * x)) / (x ^ 2) ^ 2)) x :=
+    (h1.sub h2).exp
+  have e : -(2 * x) - (0 * x ^ 2 - b ^ 2 * (2 * x)) / (x ^ 2) ^ 2 = -(2 * x) + 2 * b ^ 2 / x ^ 3 := by
+    field_simp
+    ring
+  rw [e] at h3
+  exact h3
+
+theorem hasDerivAt_pow_mul_E (m : ℕ) (b : ℝ) {x : ℝ} (hx : x ≠ 0) :
+    HasDerivAt (fun x => x ^ m * E b x)
+      (m * x ^ (m - 1) * E b x + x ^ m * (E b x * (-(2 * x) + 2 * b ^ 2 / x ^ 3))) x :=
+  (hasDerivAt_pow m x).mul (hasDerivAt_E b hx)
+
+theorem continuousWithinAt_pow_mul_E {m : ℕ} (hm : m ≠ 0) (b : ℝ) :
+    ContinuousWithinAt (fun x => x ^ m * E b x) (Ici 0) 0 := by
+  refine ContinuousAt.continuousWithinAt ?_
+  show Tendsto (fun x => x ^ m * E b x) (𝓝 0) (𝓝 (0 ^ m * E b 0))
+  rw [zero_pow hm, zero_mul]
+  refine squeeze_zero_norm (a := fun x : ℝ => |x| ^ m) (fun x => ?_) ?_
+  · rw [norm_mul, norm_pow, Real.norm_eq_abs, Real.norm_of_nonneg (E_pos b x).le]
+    exact mul_le_of_le_one_right (pow_nonneg (abs_nonneg x) m) (E_le_one b x)
+  · have : Continuous fun x : ℝ => |x| ^ m := by fun_prop
+    have h := this.tendsto 0
+    simpa [hm] using h
+
+theorem tendsto_pow_mul_E_atTop (m : ℕ) (b : ℝ) :
+    Tendsto (fun x => x ^ m * E b x) atTop (𝓝 0) := by
+  refine squeeze_zero_norm' (a := fun x : ℝ => x ^ m * exp (-x)) ?_
+    (Real.tendsto_pow_mul_exp_neg_atTop_nhds_zero m)
+  filter_upwards [eventually_ge_atTop (1 : ℝ)] with x hx
+  have hx0 : 0 ≤ x := by linarith
+  rw [Real.norm_of_nonneg (mul_nonneg (pow_nonneg hx0 m) (E_pos b x).le)]
+  refine mul_le_mul_of_nonneg_left ((E_le_gauss b x).trans ?_) (pow_nonneg hx0 m)
+  exact exp_le_exp.mpr (by nlinarith)
+
+/-- integration by parts on (0, ∞): the derivative of `x^m · E b x` (m ≥ 1) integrates to zero -/
+theorem integral_deriv_pow_mul_E {m : ℕ} (hm : m ≠ 0) (b : ℝ)
+    (hint : IntegrableOn (fun x : ℝ =>
+      m * x ^ (m - 1) * E b x + x ^ m * (E b x * (-(2 * x) + 2 * b ^ 2 / x ^ 3))) (Ioi 0)) :
+    ∫ x in Ioi 0, (m * x ^ (m - 1) * E b x + x ^ m * (E b x * (-(2 * x) + 2 * b ^ 2 / x ^ 3))) = 0 := by
+  have h := integral_Ioi_of_hasDerivAt_of_tendsto (continuousWithinAt_pow_mul_E hm b)
+    (fun x hx => hasDerivAt_pow_mul_E m b (ne_of_gt hx)) hint (tendsto_pow_mul_E_atTop m b)
+  rw [h, zero_pow hm]
+  ring
+
+/-- the one negative power that occurs: `(b/x²)·E b x`, obtained from `E b` by `x ↦ b/x` -/
+theorem integrableOn_inv_sq_mul_E {b : ℝ} (hb : 0 ≤ b) :
+    IntegrableOn (fun x : ℝ => b / x ^ 2 * E b x) (Ioi 0) := by
+  rcases hb.eq_or_lt with rfl | hb
+  · simp
+  · have := (integrableOn_comp_inv hb (fun x => E b x)).mp (integrableOn_E b)
+    refine this.congr_fun (fun x hx => ?_) measurableSet_Ioi
+    show b / x ^ 2 * E b (b / x) = b / x ^ 2 * E b x
+    rw [E_inv hb hx]
+
+theorem integral_inv_sq_mul_E {b : ℝ} (hb : 0 ≤ b) :
+    b * ∫ x in Ioi 0, b / x ^ 2 * E b x = b * ∫ x in Ioi 0, E b x := by
+  rcases hb.eq_or_lt with rfl | hb
+  · simp
+  · congr 1
+    rw [integral_comp_inv hb (fun x => E b x)]
+    refine setIntegral_congr_fun measurableSet_Ioi fun x hx => ?_
+    show b / x ^ 2 * E b x = b / x ^ 2 * E b (b / x)
+    rw [E_inv hb hx]
+
+/-- `∫_0^∞ x² exp(−x² − b²/x²) dx = (√π/4)(1 + 2b) e^{−2b}` -/
+theorem integral_sq_mul_E {b : ℝ} (hb : 0 ≤ b) :
+    ∫ x in Ioi 0, x ^ 2 * E b x = sqrt π / 4 * (1 + 2 * b) * exp (-(2 * b)) := by
+  have h0 := integrableOn_E b
+  have h2 := integrableOn_pow_mul_E 2 b
+  have hH := integrableOn_inv_sq_mul_E hb
+  have i2 : IntegrableOn (fun x : ℝ => 2 * (x ^ 2 * E b x)) (Ioi 0) := h2.const_mul 2
+  have i1 : IntegrableOn (fun x : ℝ => E b x - 2 * (x ^ 2 * E b x)) (Ioi 0) := h0.sub i2
+  have i3 : IntegrableOn (fun x : ℝ => 2 * b * (b / x ^ 2 * E b x)) (Ioi 0) := hH.const_mul (2 * b)
+  have hcomb : IntegrableOn (fun x : ℝ => E b x - 2 * (x ^ 2 * E b x) + 2 * b * (b / x ^ 2 * E b x))
+      (Ioi 0) := i1.add i3
+  have hcongr : ∀ x ∈ Ioi (0 : ℝ),
+      E b x - 2 * (x ^ 2 * E b x) + 2 * b * (b / x ^ 2 * E b x)
+      = ((1 : ℕ) : ℝ) * x ^ (1 - 1) * E b x + x ^ 1 * (E b x * (-(2 * x) + 2 * b ^ 2 / x ^ 3)) := by
+    intro x hx
+    have hx0 : x ≠ 0 := ne_of_gt hx
+    field_simp
+    ring
+  have hz := integral_deriv_pow_mul_E one_ne_zero b (hcomb.congr_fun hcongr measurableSet_Ioi)
+  rw [← setIntegral_congr_fun measurableSet_Ioi hcongr,
+    integral_add i1 i3, integral_sub h0 i2, integral_const_mul, integral_const_mul, mul_assoc,
+    integral_inv_sq_mul_E hb, integral_E hb] at hz
+  linarith
+
+/-- `∫_0^∞ x⁴ exp(−x² − b²/x²) dx = (√π/8)(3 + 6b + 4b²) e^{−2b}` -/
+theorem integral_pow_four_mul_E {b : ℝ} (hb : 0 ≤ b) :
+    ∫ x in Ioi 0, x ^ 4 * E b x = sqrt π / 8 * (3 + 6 * b + 4 * b ^ 2) * exp (-(2 * b)) := by
+  have h0 := integrableOn_E b
+  have h2 := integrableOn_pow_mul_E 2 b
+  have h4 := integrableOn_pow_mul_E 4 b
+  have i2 : IntegrableOn (fun x : ℝ => 3 * (x ^ 2 * E b x)) (Ioi 0) := h2.const_mul 3
+  have i4 : IntegrableOn (fun x : ℝ => 2 * (x ^ 4 * E b x)) (Ioi 0) := h4.const_mul 2
+  have i1 : IntegrableOn (fun x : ℝ => 3 * (x ^ 2 * E b x) - 2 * (x ^ 4 * E b x)) (Ioi 0) := i2.sub i4
+  have i3 : IntegrableOn (fun x : ℝ => 2 * b ^ 2 * E b x) (Ioi 0) := h0.const_mul (2 * b ^ 2)
+  have hcomb : IntegrableOn (fun x : ℝ => 3 * (x ^ 2 * E b x) - 2 * (x ^ 4 * E b x) + 2 * b ^ 2 * E b x)
+      (Ioi 0) := i1.add i3
+  have hcongr : ∀ x ∈ Ioi (0 : ℝ),
+      3 * (x ^ 2 * E b x) - 2 * (x ^ 4 * E b x) + 2 * b ^ 2 * E b x
+      = ((3 : ℕ) : ℝ) * x ^ (3 - 1) * E b x + x ^ 3 * (E b x * (-(2 * x) + 2 * b ^ 2 / x ^ 3)) := by
+    intro x hx
+    have hx0 : x ≠ 0 := ne_of_gt hx
+    field_simp
+    push_cast
+    ring
+  have hz := integral_deriv_pow_mul_E (by norm_num : (3 : ℕ) ≠ 0) b
+    (hcomb.congr_fun hcongr measurableSet_Ioi)
+  rw [← setIntegral_congr_fun measurableSet_Ioi hcongr,
+    integral_add i1 i3, integral_sub i2 i4, integral_const_mul, integral_const_mul,
+    integral_const_mul, integral_sq_mul_E hb, integral_E hb] at hz
+  linarith
 
 end MaternInt
